@@ -1466,7 +1466,7 @@ def gen_routes(ctx):
         pct += [occ_from_json(o) for o in pr]
     cp, cf = corpus_cases()
     pct += [(b, t, (a,)) for b, t, a in cp]
-    for _ in range(ctx.n(110, 1500)):
+    for _ in range(ctx.n(80, 1500)):
         if rng.random() < 0.6:
             isb = rng.random() < 0.3
             t = rng.choice(PROG_TEMPLATES) if rng.random() < 0.6 else rand_pct_template(rng, isb)
@@ -1482,7 +1482,7 @@ def gen_routes(ctx):
             members = (rand_pct_arg(rng, t, isb),)
         pct.append((isb, t, members))
     fmt = list(FROUTE_FIXED) + list(cf)
-    for _ in range(ctx.n(60, 800)):
+    for _ in range(ctx.n(40, 800)):
         t = rand_fmt_template(rng)
         pos, kw = rand_fmt_args(rng, t)
         fmt.append((t, pos, kw))
@@ -1595,7 +1595,7 @@ def gen_programs(ctx):
                                     "'%%d %%s' with every ordered pair of tuples of length 0..3 / a scalar; unions of two" % (
                                         len(ex), " and triple" if ctx.big() else " (triples over 5 dicts for '%(a)s')"))
     progs += ex
-    for _ in range(ctx.n(450, 6000)):
+    for _ in range(ctx.n(350, 6000)):
         progs.append(rand_program(ctx.rng))
     return progs
 
